@@ -2,6 +2,7 @@ package sut
 
 import (
 	tq "github.com/facebookincubator/tacquito"
+	"strconv"
 
 	"tqsim/plan"
 )
@@ -12,6 +13,7 @@ import (
 type Receivers struct {
 	body map[string]tq.EncoderDecoder
 	hdr  tq.Header
+	pkt  tq.Packet
 }
 
 // Body decodes raw into the kept receiver of the kind and compares with the value a
@@ -57,6 +59,37 @@ func (r *Receivers) Header(h tq.Header) string {
 		got := J(LibHeader(r.hdr))
 		r.hdr = tq.Header{}
 		return "header: used receiver holds " + got + ", fresh receiver " + J(LibHeader(fresh))
+	}
+	return ""
+}
+
+// Packet decodes the packet (header h, body) into the kept packet receiver, then a
+// header-only packet (same header, length 0), and compares the second result with what a
+// fresh receiver gives for those 12 bytes.
+func (r *Receivers) Packet(h tq.Header, body []byte) string {
+	h.Length = uint32(len(body))
+	hb, err := h.MarshalBinary()
+	if err != nil || len(body) == 0 {
+		return ""
+	}
+	if err := r.pkt.UnmarshalBinary(append(append([]byte(nil), hb...), body...)); err != nil {
+		r.pkt = tq.Packet{}
+		return ""
+	}
+	h.Length = 0
+	h0, _ := h.MarshalBinary()
+	var fresh tq.Packet
+	if err := fresh.UnmarshalBinary(h0); err != nil {
+		return ""
+	}
+	if err := r.pkt.UnmarshalBinary(h0); err != nil {
+		r.pkt = tq.Packet{}
+		return "packet: decoding 12 header-only bytes into a used receiver failed (" + err.Error() + ") where a fresh one succeeded"
+	}
+	if len(r.pkt.Body) != len(fresh.Body) {
+		n := len(r.pkt.Body)
+		r.pkt = tq.Packet{}
+		return "packet: a 12-byte header-only input decoded into a used receiver yields a body of " + strconv.Itoa(n) + " bytes that are not in the input"
 	}
 	return ""
 }
